@@ -391,6 +391,11 @@ def one_history(ctx, net, rng, idx):
                     cliopts[opt] = rng.choice([102, 103, 151, 160]) if v1only else rng.choice([203, 203, 102, 160, 211, 220])  # 203 = built-in default
                 else:
                     cliopts[opt] = hist_value(rng, opt, r)
+        for opt in LIST_OPTS:
+            # the accounts that are already saved, given again in another order (the order of the requests is the order given)
+            if r > 0 and kind != "all-write" and len(expected.get(opt) or []) >= 2 and rng.random() < 0.35:
+                cliopts[opt] = list(reversed(expected[opt])) if rng.random() < 0.6 else expected[opt][1:] + expected[opt][:1]
+                ctx.count("saved_list_given_again_in_other_order")
         if r > 0 and kind == "write" and rng.random() < 0.3:
             # a --write for ANOTHER nickname that has no section in the user's file yet: must not disturb the
             # default CLIENTUID nor the settings saved for `nick`
